@@ -2,7 +2,9 @@ package main
 
 import (
 	"verif/engines/abandon"
+	"verif/engines/alias"
 	"verif/engines/chunk"
+	"verif/engines/conc"
 	"verif/engines/fault"
 	"verif/engines/hostile"
 	"verif/engines/kcache"
@@ -33,7 +35,7 @@ var registry = map[string]*propCfg{}
 func init() {
 	registry["C02"] = &propCfg{
 		Engine: chunk.Engine{}, EngineName: "chunk", Level: "exploration",
-		QuickRuns: 6000, ThoroughRuns: 400000, QuickCapS: 60, ThoroughCapS: 900,
+		QuickRuns: 60000, ThoroughRuns: 600000, QuickCapS: 60, ThoroughCapS: 900,
 		Rule: "one run = one document written by the independent JSON/CBOR/UBJSON writers (1 in 4 then corrupted), delivered under every single cut, all 1-byte chunks, all cut pairs if len<=24, seeded cut sets (incl. empty writes) and seeded read plans (eof with/after data); evaluations = parser executions; a case is non-trivial if a cut lands strictly inside a multi-byte token (or the document is corrupted) and distinct by (document, entry point, cut set / read plan)",
 		Components: map[string][]string{
 			"real": {"json.Parser", "ubjson.Parser", "cborl.Parser", "Parse/ParseString/Write/ParseReader entry points", "io.Copy"},
@@ -43,7 +45,7 @@ func init() {
 	}
 	registry["C18"] = &propCfg{
 		Engine: pull.Engine{}, EngineName: "pull", Level: "exploration",
-		QuickRuns: 40000, ThoroughRuns: 4000000, QuickCapS: 60, ThoroughCapS: 900,
+		QuickRuns: 800000, ThoroughRuns: 10000000, QuickCapS: 60, ThoroughCapS: 900,
 		Rule: "one run = one stream of k in [0,6] top-level values from the independent writers, read through 3-6 decoder/reader plans (NewBytesDecoder, or NewDecoder with buffer size from {1,2,3,7,16,64,4096}, seeded short-read sizes, EOF with or after the data, optional truncation inside a value); evaluations = decoder plans executed; distinct by (stream bytes, constructor, buffer size, read plan, eof mode); every plan is non-trivial (k+1 Next calls against a scheduled reader)",
 		Components: map[string][]string{
 			"real": {"json.Decoder", "ubjson.Decoder", "cborl.Decoder", "the three push parsers (per-value reference)"},
@@ -52,7 +54,7 @@ func init() {
 	}
 	registry["C03"] = &propCfg{
 		Engine: hostile.Engine{}, EngineName: "hostile", Level: "exploration",
-		QuickRuns: 20000, ThoroughRuns: 3000000, QuickCapS: 60, ThoroughCapS: 900,
+		QuickRuns: 150000, ThoroughRuns: 4000000, QuickCapS: 60, ThoroughCapS: 900,
 		Rule: "one run = one valid stream from the independent writers, then either 6-15 hostile inputs derived from it (1-4 seeded corruptions: bit flip, byte replace, interesting-byte replace/insert, delete, truncate, length inflation; splices; pure random bytes), each delivered through 2-3 of {Parse, ParseString, Write* under a seeded chunking, ParseReader and Decoder.Next loops under seeded short reads / buffer sizes / EOF modes}, or (1 run in 3) every strict prefix ending inside a value (96 sampled if more) through the five entry points that know the end; evaluations = guarded entry-point executions; distinct by (input bytes, entry, schedule); all are non-trivial (hostile or truncated input)",
 		Components: map[string][]string{
 			"real": {"json/ubjson/cborl Parser", "json/ubjson/cborl Decoder", "io.Copy"},
@@ -62,7 +64,7 @@ func init() {
 	}
 	registry["C16"] = &propCfg{
 		Engine: fault.Engine{}, EngineName: "fault", Level: "fault_enumeration",
-		QuickRuns: 20000, ThoroughRuns: 2000000, QuickCapS: 60, ThoroughCapS: 900,
+		QuickRuns: 600000, ThoroughRuns: 8000000, QuickCapS: 60, ThoroughCapS: 900,
 		Rule: "one run = one generated event stream / document / Go value and a dry run counting W writes (sink side: json with options, ubjson, cborl encoders incl. extended events) or W visitor events (producer side: three parsers via Parse/ParseString/Write*/ParseReader/Decoder.Next under seeded chunking, gotype.Fold and Iterator.Fold over the type catalogue, EnsureExtVisitor adapters); then the failure is injected at EVERY index k<W (61 sampled + first/last if W>64); evaluations = injected executions; each is non-trivial (the fault fired) and distinct by (scenario, k)",
 		Components: map[string][]string{
 			"real": {"json/ubjson/cborl Visitor (encoders)", "json/ubjson/cborl Parser and Decoder", "gotype.Fold / Iterator", "EnsureExtVisitor adapters (array.go, map.go, string.go)"},
@@ -71,7 +73,7 @@ func init() {
 	}
 	registry["C08"] = &propCfg{
 		Engine: pipe.Engine{}, EngineName: "pipe", Level: "exploration",
-		QuickRuns: 30000, ThoroughRuns: 3000000, QuickCapS: 60, ThoroughCapS: 900,
+		QuickRuns: 300000, ThoroughRuns: 4000000, QuickCapS: 60, ThoroughCapS: 900,
 		Rule: "one run = one source stream (a single value, or 2-4 concatenated container documents) of a drawn source format written by the independent writers, piped ParseReader(simkit.Reader) -> encoder of a drawn target format under 3-6 read plans (whole, 1-byte, seeded short reads; EOF with/after data); evaluations = pipeline executions; distinct by (pair, source bytes, read plan, eof mode); every execution is non-trivial (the transport schedules every read)",
 		Components: map[string][]string{
 			"real": {"json/ubjson/cborl Parser (ParseReader, io.Copy)", "json/ubjson/cborl Visitor (encoders)"},
@@ -80,7 +82,7 @@ func init() {
 	}
 	registry["C17"] = &propCfg{
 		Engine: reuse.Engine{}, EngineName: "reuse", Level: "exploration",
-		QuickRuns: 30000, ThoroughRuns: 3000000, QuickCapS: 60, ThoroughCapS: 900,
+		QuickRuns: 600000, ThoroughRuns: 8000000, QuickCapS: 60, ThoroughCapS: 900,
 		Rule: "one run = one long-lived instance of a drawn kind (json/ubjson/cborl encoder incl. extended events; push parser via Write under per-document chunk schedules; Parser.Parse/ParseString called repeatedly; byte and reader pull decoders; fold Iterator; Unfolder with SetTarget per document, optional Reset and key cache) processing a seeded history of 1-6 complete documents and then a probe; evaluations = histories executed; distinct by (kind, history, schedules, probe); every history is non-trivial (>= 1 prior document)",
 		Components: map[string][]string{
 			"real": {"json/ubjson/cborl Visitor", "json/ubjson/cborl Parser", "json/ubjson/cborl Decoder", "gotype.Iterator", "gotype.Unfolder"},
@@ -89,7 +91,7 @@ func init() {
 	}
 	registry["C20"] = &propCfg{
 		Engine: kcache.Engine{}, EngineName: "kcache", Level: "exploration",
-		QuickRuns: 30000, ThoroughRuns: 2000000, QuickCapS: 60, ThoroughCapS: 900,
+		QuickRuns: 400000, ThoroughRuns: 6000000, QuickCapS: 60, ThoroughCapS: 900,
 		Rule: "one run = one Unfolder with EnableKeyCache(n), n drawn from {0,1,2,3,5,64,1000}, fed a history of 1-8 (thorough: 1-16) documents whose object keys come from an alphabet of 1-8 keys (hits, misses, evictions, re-insertions), written by the independent writers in a drawn format and parsed by the real parser under per-document chunk schedules with chunk buffers scribbled after every write, into a drawn map-bearing target type; all targets are inspected only after the whole history; evaluations = histories; distinct by (capacity, format, target, documents, schedules); every history is non-trivial (keys delivered by reference through the cache)",
 		Components: map[string][]string{
 			"real": {"gotype.Unfolder incl. symbolCache", "json/ubjson/cborl Parser"},
@@ -98,11 +100,29 @@ func init() {
 	}
 	registry["C14"] = &propCfg{
 		Engine: abandon.Engine{}, EngineName: "abandon", Level: "exploration",
-		QuickRuns: 12000, ThoroughRuns: 1500000, QuickCapS: 60, ThoroughCapS: 900,
+		QuickRuns: 300000, ThoroughRuns: 6000000, QuickCapS: 60, ThoroughCapS: 900,
 		Rule: "one run = one (well-formed stream, target type) pair - the stream is the fold of a catalogue value of the same or another type, or a generated stream; the target any catalogue type incl. an unsupported one - abandoned after k events for EVERY k (24 sampled + complete if the stream has >40 events), with announced lengths of still-open containers inflated to {2^16,2^20,2^31-1,2^31,2^40,2^62,2^63-1} in half of the cases; then Reset, SetTarget and a compatible probe document; evaluations = (stream,target,k) triples; distinct by (target, delivered prefix, announcements, probe type); all are non-trivial (a crash point or a complete mismatching document)",
 		Components: map[string][]string{
 			"real": {"gotype.Unfolder (all generated and reflection based unfolder states, Reset, SetTarget)", "gotype.Fold (stream source)"},
 			"stub": {"the producer (events replayed by the simulator, by value or by reference)"}},
 		Assumptions: []string{"allocation bound 1 MiB + 4 KiB per delivered event, cheap counter confirmed by an exact stop-the-world measurement", "sentinel words before and after the target inside one allocation detect out-of-target writes", "worker address space limited to 24 GiB so that giant allocations are fatal and attributed"},
+	}
+	registry["C15"] = &propCfg{
+		Engine: alias.Engine{}, EngineName: "alias", Level: "exploration", Race: true,
+		QuickRuns: 30000, ThoroughRuns: 600000, QuickCapS: 50, ThoroughCapS: 900,
+		Rule: "one run = 1-4 documents (values of a string-bearing catalogue type, written by the independent writers in a drawn format) pushed through ONE parser/decoder and ONE unfolder (SetTarget per document, optional key cache) in an environment hostile to aliasing: chunk buffers scribbled after every Write, whole inputs scribbled after Parse/ParseReader/Next, small reused reader buffers, runtime.GC() at seeded event boundaries (GODEBUG=clobberfree=1), -race build with checkptr; 1 run in 5 instead folds a catalogue value into an encoder with and without GC between events; evaluations = scenarios; distinct by (format, entry, target, documents, schedules, GC points); all are non-trivial (every buffer the library saw is destroyed before the targets are read)",
+		Components: map[string][]string{
+			"real": {"json/ubjson/cborl Parser and Decoder", "gotype.Unfolder", "gotype.Fold", "json/ubjson/cborl Visitor", "internal/unsafe conversions under checkptr"},
+			"stub": {"caller buffers (simkit.Feed / scribbled slices)", "io.Reader (simkit.Reader)", "GC trigger (tap between producer and consumer)"}},
+		Assumptions: []string{"oracles: deep copy taken right after unfolding vs. the target after all later activity; benign run (immutable input, whole buffer, fresh instances, no GC injection)", "checkptr and the race detector abort the worker on an invalid pointer conversion (attributed through the progress word)"},
+	}
+	registry["C19"] = &propCfg{
+		Engine: conc.Engine{}, EngineName: "conc", Level: "exploration", Race: true, RunsPerProc: 8,
+		QuickRuns: 16000, ThoroughRuns: 400000, QuickCapS: 50, ThoroughCapS: 900,
+		Rule: "one run = 2-6 caller goroutines, each with a seeded program of 1-4 pipeline operations on instances of its own (fold->encoder->writer, reader->parser->unfolder, transcode, fold->unfold, iterator+unfolder reused across values, per-instance custom folders/unfolders that differ between tasks for the same Go type) over shared read-only documents, Go values and Go types, executed under the serialized seeded task scheduler (policy drawn from 7: uniform, sticky .5/.9/.99, round-robin, random priorities, run-to-completion) with a task switch possible at every Read, Write (before the buffer is consumed) and visitor event; a worker process executes at most 8 runs so that first use of every type happens under contention; evaluations = runs; distinct by (interleaving digest, programs) and non-trivial if more task switches than tasks occurred",
+		Components: map[string][]string{
+			"real": {"gotype.Fold/Iterator/Unfolder incl. reflection-based compilation and type registries", "json/ubjson/cborl Parser and Visitor", "Go race detector (-race) as oracle"},
+			"stub": {"thread scheduler (simkit.Sched: one runnable goroutine at a time, hand-offs hidden from the race detector)", "io.Reader / io.Writer / visitor taps that yield to the scheduler"}},
+		Assumptions: []string{"no preemption inside a library function between two seams; the race detector's vector clocks make data races visible independently of adjacency in the schedule", "oracles: exit 66 of the race-built worker; per-task results equal the run-alone results"},
 	}
 }
